@@ -81,7 +81,7 @@ def api_level(rep, tier_, rng):
 
 def run(rep, tier_, rng):
     # |z|, exp, cos, sin on rectangles: the model takes the point-function values recorded from the live call as inputs
-    ELEM = ["mpci_abs", "mpci_exp_from", "mpci_cos_from", "mpci_sin_from"]
+    ELEM = ["mpci_abs", "mpci_exp_from", "mpci_cos_from", "mpci_sin_from", "mpi_atan2_plan"]
     def make(rng_, fn, n):
         return allcases.make(rng_, fn, max(50, n // 16) if fn in ELEM else n)
     run_engine_a(rep, "C15", tier_, rng, FNS + ELEM, TAGS, n_quick=2500, n_thorough=40000, extra=api_level,
